@@ -637,6 +637,29 @@ func definitelyNonNilError(v ssa.Value, known map[ssa.Value]bool) bool {
 			if g, ok := x.X.(*ssa.Global); ok && strings.HasPrefix(g.Name(), "Err") {
 				return true
 			}
+			// a package-level error variable that is only ever assigned a constructed error (sentinel)
+			if g, ok := x.X.(*ssa.Global); ok && g.Pkg != nil && isErrorType(x.Type()) {
+				nSt, allCtor := 0, true
+				for _, mem := range g.Pkg.Members {
+					fn, isFn := mem.(*ssa.Function)
+					if !isFn {
+						continue
+					}
+					withClosures(fn, func(f *ssa.Function) {
+						allInstrs(f, func(in ssa.Instruction) {
+							if st, ok := in.(*ssa.Store); ok && st.Addr == ssa.Value(g) {
+								nSt++
+								if c, isCall := st.Val.(*ssa.Call); !isCall || (calleeName(c) != "errors.New" && calleeName(c) != "fmt.Errorf") {
+									allCtor = false
+								}
+							}
+						})
+					})
+				}
+				if nSt > 0 && allCtor {
+					return true
+				}
+			}
 		}
 	case *ssa.Phi:
 		for _, e := range x.Edges {
